@@ -4,7 +4,7 @@
 From Coq Require Import List NArith Bool.
 From Conductor Require Import Gen.Generated Model.Planner.
 Import ListNotations.
-Open Scope N_scope.
+Local Open Scope N_scope.
 
 Definition kind_code (k : tkind) : N := match k with KCommand => 0 | KExperiment => 1 | KCombine => 2 | KGroup => 3 end.
 Definition lowering_row (k : tkind) : option (N * (N * bool * bool * bool * bool)) :=
